@@ -71,6 +71,13 @@ func newHistRun(c *simcheck.Ctx, sc *histScenario) (*histRun, error) {
 	if err != nil {
 		return nil, err
 	}
+	if sc.Proc.ViaLink {
+		link := w.root + "-link"
+		os.Remove(link)
+		if err := os.Symlink(w.root, link); err == nil {
+			w.root = link
+		}
+	}
 	h := &histRun{w: w, p: sc.clone().Spec, pc: sc.Proc, keys: map[string]string{}, changedSeq: map[string]int{}, changedBy: map[string]string{}, deletedSeq: map[string]int{}, cleanup: cleanup}
 	h.prev, err = h.p.sync(w.root, nil)
 	if err != nil {
